@@ -388,6 +388,28 @@ func runC09(c *harness.Ctx) {
 	if planTotal(ss.plan) == 0 {
 		clientWaits = false
 	}
+	// the bridge's inline seed frame (the last 45 bytes of its first write) may
+	// be held up for a few milliseconds: the client's Dial returns, its writer
+	// starts sampling lengths, and the frame that reseeds the distributions
+	// arrives in the middle of that
+	if t.Draw("late-seed", 2) == 1 && !clientWaits {
+		holdMs := 1 + t.Draw("late-seed.ms", 40)
+		hold := time.Duration(holdMs) * time.Millisecond
+		// ... and the client's first write waits just as long, so that both
+		// become runnable at the same virtual instant and the scheduler decides
+		// how they interleave
+		if len(cs.plan) == 0 {
+			cs.plan = []writePlan{{Size: 1 + t.Draw("late-seed.sz", 3000)}}
+		}
+		cs.plan[0].PauseMs = holdMs
+		link.BA.Filter = func(off int64, p []byte) []byte {
+			if off == 0 && len(p) > 45 {
+				link.BA.AddFaultLocked(simnet.Fault{Kind: simnet.FaultStall, Offset: int64(len(p) - 45), Dur: hold})
+			}
+			return p
+		}
+		c.Feature("seed-frame-arrives-late")
+	}
 	var cUp, sUp bool
 	c.S.Go("s/accept", func() {
 		conn, err := sf.WrapConn(link.B)
